@@ -275,6 +275,7 @@ type HLog struct {
 	mInSend   bool
 	mCtxDoneSeen bool
 	mWaiting     bool
+	mSentMark    [16]int
 }
 
 type callRec struct {
@@ -300,6 +301,25 @@ func (l *HLog) Enabled(int) bool { return l.mWaiting }
 
 //go:norace
 func (l *HLog) setSent(n int) { l.mSent = n }
+
+// markSent remembers how many response bytes existed when Send number n
+// returned: a ping-pong client only sees answer n once that many bytes have
+// actually been flushed to it.
+//
+//go:norace
+func (l *HLog) markSent(n, outLen int) {
+	if n < len(l.mSentMark) {
+		l.mSentMark[n] = outLen
+	}
+}
+
+//go:norace
+func (l *HLog) sentMark(n int) int {
+	if n < len(l.mSentMark) {
+		return l.mSentMark[n]
+	}
+	return 0
+}
 
 //go:norace
 func (l *HLog) sentMirror() int { return l.mSent }
@@ -530,6 +550,9 @@ func (w *World) stream(full string, md protoreflect.MethodDescriptor, stream grp
 		}
 		l.Sent++
 		l.setSent(l.Sent)
+		if w.tag == "local" {
+			l.markSent(l.Sent, rs.q.outLen())
+		}
 	}
 	yield := func(label string) bool {
 		if torn {
